@@ -711,8 +711,8 @@ func c04Zvdrv() string {
 	if err != nil {
 		return ""
 	}
-	// <verif>/.work/bin/zvh[-race]  →  <verif>/lean/.lake/build/bin/zvdrv
-	return filepath.Join(filepath.Dir(filepath.Dir(filepath.Dir(exe))), "lean", ".lake", "build", "bin", "zvdrv")
+	// <verif>/.work/bin/zvh[-race]  →  <verif>/lean/.lake/build/bin/zvdrv-C04 (one driver per property)
+	return filepath.Join(filepath.Dir(filepath.Dir(filepath.Dir(exe))), "lean", ".lake", "build", "bin", "zvdrv-C04")
 }
 
 // c04Lean runs the compiled Lean predicates on the histories; one verdict per history.
@@ -727,7 +727,7 @@ func c04Lean(hs []c04Hist) ([]bool, error) {
 			return nil, err
 		}
 	}
-	out, err := runCmd(c04Zvdrv(), []string{"C04"}, in.Bytes(), 120*time.Second)
+	out, err := runCmd(c04Zvdrv(), nil, in.Bytes(), 120*time.Second)
 	if err != nil {
 		return nil, err
 	}
